@@ -911,7 +911,10 @@ class Server:
             # which was cut off is not carried out
             raise ConnectionResetError
         try:
-            s = line.decode(encoding=self.encoding).rstrip()
+            # (the line end and blanks before it: str.rstrip() would also take
+            # no-break spaces, separators and other characters that are part
+            # of a name or of a password)
+            s = line.decode(encoding=self.encoding).rstrip(" \t\r\n")
         except UnicodeDecodeError:
             # the line may be a PASS command: its bytes must not reach the
             # logs through the exception message
